@@ -14,80 +14,229 @@ From LC.Base Require Import Utf8.
 From LC.V2 Require Import Tok TokSim TokInv TokWF.
 
 (* re-casing ASCII letters anywhere in the input *)
-(* statement as proved in V2/TokWF.v (restated through its type) *)
-Theorem C05_recase : ltac:(let t := type of (@wf_recase) in exact t).
+(* statement as proved in V2/TokWF.v (written out; checked against the lemma by exact) *)
+Theorem C05_recase :
+  forall (T : tables) (rs rs' : list rune),
+         tables_wf T = true ->
+         Forall2 ascii_case_eq rs rs' -> tokenize_runes T true rs = tokenize_runes T true rs'.
 Proof. exact (@wf_recase). Qed.
-Check C05_recase.
 Print Assumptions C05_recase.
 
 (* any non-empty run of blanks/tabs/CR/VT/FF can be replaced by any other such run *)
-(* statement as proved in V2/TokWF.v (restated through its type) *)
-Theorem C05_whitespace_runs : ltac:(let t := type of (@wf_whitespace) in exact t).
+(* statement as proved in V2/TokWF.v (written out; checked against the lemma by exact) *)
+Theorem C05_whitespace_runs :
+  forall (T : tables) (p ws ws' q : list rune),
+         tables_wf T = true ->
+         ws <> [] ->
+         ws' <> [] ->
+         incl ws hspace_runes ->
+         incl ws' hspace_runes -> tokenize_runes T true (p ++ ws ++ q) = tokenize_runes T true (p ++ ws' ++ q).
 Proof. exact (@wf_whitespace). Qed.
-Check C05_whitespace_runs.
 Print Assumptions C05_whitespace_runs.
 
 (* blanks before a line break can be added or removed *)
-(* statement as proved in V2/TokWF.v (restated through its type) *)
-Theorem C05_trailing_blanks : ltac:(let t := type of (@wf_trailing) in exact t).
+(* statement as proved in V2/TokWF.v (written out; checked against the lemma by exact) *)
+Theorem C05_trailing_blanks :
+  forall (T : tables) (p ws : list rune) (q : list N),
+         tables_wf T = true ->
+         incl ws hspace_runes ->
+         dEOL (state_after T p) = true \/ dWord (state_after T p) = false \/ obuf_rev (state_after T p) = [] ->
+         no_hyphen_end (state_after T p) ->
+         tokenize_runes T true (p ++ ws ++ [10%N] ++ q) = tokenize_runes T true (p ++ [10%N] ++ q).
 Proof. exact (@wf_trailing). Qed.
-Check C05_trailing_blanks.
 Print Assumptions C05_trailing_blanks.
 
 (* CRLF line endings are equivalent to LF *)
-(* statement as proved in V2/TokWF.v (restated through its type) *)
-Theorem C05_crlf : ltac:(let t := type of (@wf_crlf) in exact t).
+(* statement as proved in V2/TokWF.v (written out; checked against the lemma by exact) *)
+Theorem C05_crlf :
+  forall (T : tables) (p : list rune) (q : list N),
+         tables_wf T = true ->
+         dEOL (state_after T p) = true \/ dWord (state_after T p) = false \/ obuf_rev (state_after T p) = [] ->
+         no_hyphen_end (state_after T p) ->
+         tokenize_runes T true (p ++ [13%N; 10%N] ++ q) = tokenize_runes T true (p ++ [10%N] ++ q).
 Proof. exact (@wf_crlf). Qed.
-Check C05_crlf.
 Print Assumptions C05_crlf.
 
 (* blanks where no word is being accumulated (line start, between words) are invisible *)
-(* statement as proved in V2/TokWF.v (restated through its type) *)
-Theorem C05_indentation : ltac:(let t := type of (@wf_leading) in exact t).
+(* statement as proved in V2/TokWF.v (written out; checked against the lemma by exact) *)
+Theorem C05_indentation :
+  forall (T : tables) (p ws q : list rune),
+         tables_wf T = true ->
+         incl ws hspace_runes ->
+         obuf_rev (state_after T p) = [] ->
+         tokenize_runes T true (p ++ ws ++ q) = tokenize_runes T true (p ++ q).
 Proof. exact (@wf_leading). Qed.
-Check C05_indentation.
 Print Assumptions C05_indentation.
 
 (* comment/quote decoration (/ # * ; - > | % and blanks) at the start of the input or of a line *)
-(* statement as proved in V2/TokWF.v (restated through its type) *)
-Theorem C05_decoration : ltac:(let t := type of (@wf_decoration) in exact t).
+(* statement as proved in V2/TokWF.v (written out; checked against the lemma by exact) *)
+Theorem C05_decoration :
+  forall (T : tables) (ds : list rune),
+         tables_wf T = true ->
+         incl ds (deco_runes ++ hspace_runes) ->
+         (forall q : list rune, tokenize_runes T true (ds ++ q) = tokenize_runes T true q) /\
+         (forall p q : list rune,
+          no_hyphen_end (state_after T p) ->
+          tokenize_runes T true (p ++ [10%N] ++ ds ++ q) = tokenize_runes T true (p ++ [10%N] ++ q)).
 Proof. exact (@wf_decoration). Qed.
-Check C05_decoration.
 Print Assumptions C05_decoration.
 
 (* typographic dashes are equivalent to the ASCII hyphen at every position *)
-(* statement as proved in V2/TokWF.v (restated through its type) *)
-Theorem C05_typographic_dashes : ltac:(let t := type of (@wf_dash) in exact t).
+(* statement as proved in V2/TokWF.v (written out; checked against the lemma by exact) *)
+Theorem C05_typographic_dashes :
+  forall (T : tables) (p : list rune) (r : rune) (q : list rune),
+         tables_wf T = true ->
+         In r dash_runes -> tokenize_runes T true (p ++ r :: q) = tokenize_runes T true (p ++ 45%N :: q).
 Proof. exact (@wf_dash). Qed.
-Check C05_typographic_dashes.
 Print Assumptions C05_typographic_dashes.
 
 (* typographic and ASCII quotes inside a word yield the same cleaned token *)
-(* statement as proved in V2/TokWF.v (restated through its type) *)
-Theorem C05_typographic_quotes : ltac:(let t := type of (@wf_quote_cleanup) in exact t).
+(* statement as proved in V2/TokWF.v (written out; checked against the lemma by exact) *)
+Theorem C05_typographic_quotes :
+  forall (T : tables) (p : bool) (a : list rune) (q q' : rune) (b : list rune) (n : bool),
+         tables_wf T = true ->
+         In q quote_runes ->
+         In q' quote_runes ->
+         a <> [] ->
+         header T (a ++ q :: b) = false ->
+         header T (a ++ q' :: b) = false ->
+         cleanup_token T p (a ++ q :: b) n = cleanup_token T p (a ++ q' :: b) n.
 Proof. exact (@wf_quote_cleanup). Qed.
-Check C05_typographic_quotes.
 Print Assumptions C05_typographic_quotes.
 
 (* inserting n blank lines at a clean line boundary leaves all words unchanged and shifts later line numbers by exactly n *)
-(* statement as proved in V2/TokSim.v (restated through its type) *)
-Theorem C05_blank_lines : ltac:(let t := type of (@blank_lines_insert) in exact t).
+(* statement as proved in V2/TokSim.v (written out; checked against the lemma by exact) *)
+Theorem C05_blank_lines :
+  forall (T : tables) (p q : list rune) (n : nat),
+         clean (state_after T p) ->
+         exists (post : list (word * N)) (mpost : list N),
+           d_toks (tokenize_runes T true (p ++ q)) = emitted_toks T p ++ post /\
+           d_toks (tokenize_runes T true (p ++ repeat 10%N n ++ q)) =
+           emitted_toks T p ++ map (fun '(w, l) => (w, (l + N.of_nat n)%N)) post /\
+           d_matches (tokenize_runes T true (p ++ q)) = emitted_matches T p ++ mpost /\
+           d_matches (tokenize_runes T true (p ++ repeat 10%N n ++ q)) =
+           emitted_matches T p ++ map (fun l : N => (l + N.of_nat n)%N) mpost /\
+           d_amps (tokenize_runes T true (p ++ repeat 10%N n ++ q)) = d_amps (tokenize_runes T true (p ++ q)).
 Proof. exact (@blank_lines_insert). Qed.
-Check C05_blank_lines.
 Print Assumptions C05_blank_lines.
 
 (* the executable table predicate is equivalent to its Prop-level reading *)
-(* statement as proved in V2/TokWF.v (restated through its type) *)
-Theorem C05_tables_wf_spec : ltac:(let t := type of (@tables_wf_iff) in exact t).
+(* statement as proved in V2/TokWF.v (written out; checked against the lemma by exact) *)
+Theorem C05_tables_wf_spec :
+  forall T : tables, tables_wf T = true <-> tables_ok T.
 Proof. exact (@tables_wf_iff). Qed.
-Check C05_tables_wf_spec.
 Print Assumptions C05_tables_wf_spec.
 
 (* the side condition is necessary: after a hyphen-joined word that ends its line, CRLF and LF differ (inside the exemption of the property: the line after a hyphenated line) *)
-(* statement as proved in V2/TokSim.v (restated through its type) *)
-Theorem C05_crlf_needs_no_pending_join : ltac:(let t := type of (@B2_needs_no_deferred_word) in exact t).
+(* statement as proved in V2/TokSim.v (written out; checked against the lemma by exact) *)
+Theorem C05_crlf_needs_no_pending_join :
+  d_toks
+           (tokenize_runes TokSim.T0 true
+              (runes_of
+                 (String.String (Ascii.Ascii true false false true false true true false)
+                    (String.String (Ascii.Ascii true true false false true true true false)
+                       (String.String (Ascii.Ascii true false true true false true false false)
+                          String.EmptyString))) ++
+               [10%N] ++
+               runes_of
+                 (String.String (Ascii.Ascii true true false false true true true false)
+                    (String.String (Ascii.Ascii true false true false true true true false)
+                       (String.String (Ascii.Ascii true false true false false true true false)
+                          (String.String (Ascii.Ascii false false true false false true true false)
+                             String.EmptyString)))) ++
+               [13%N; 10%N] ++
+               runes_of
+                 (String.String (Ascii.Ascii false true true false false true true false)
+                    (String.String (Ascii.Ascii true true true true false true true false)
+                       (String.String (Ascii.Ascii true true true true false true true false)
+                          (String.String (Ascii.Ascii false false false false false true false false)
+                             (String.String (Ascii.Ascii false true false false false true true false)
+                                (String.String (Ascii.Ascii true false false false false true true false)
+                                   (String.String (Ascii.Ascii false true false false true true true false)
+                                      String.EmptyString))))))) ++
+               [10%N] ++
+               runes_of
+                 (String.String (Ascii.Ascii false true false false false true true false)
+                    (String.String (Ascii.Ascii true false false false false true true false)
+                       (String.String (Ascii.Ascii false true false true true true true false)
+                          String.EmptyString))))) =
+         [(runes_of
+             (String.String (Ascii.Ascii true false false true false true true false)
+                (String.String (Ascii.Ascii true true false false true true true false)
+                   (String.String (Ascii.Ascii true true false false true true true false)
+                      (String.String (Ascii.Ascii true false true false true true true false)
+                         (String.String (Ascii.Ascii true false true false false true true false)
+                            (String.String (Ascii.Ascii false false true false false true true false)
+                               String.EmptyString)))))), 1%N);
+          (runes_of
+             (String.String (Ascii.Ascii false true true false false true true false)
+                (String.String (Ascii.Ascii true true true true false true true false)
+                   (String.String (Ascii.Ascii true true true true false true true false) String.EmptyString))),
+           3%N);
+          (runes_of
+             (String.String (Ascii.Ascii false true false false false true true false)
+                (String.String (Ascii.Ascii true false false false false true true false)
+                   (String.String (Ascii.Ascii false true false false true true true false) String.EmptyString))),
+           3%N);
+          (runes_of
+             (String.String (Ascii.Ascii false true false false false true true false)
+                (String.String (Ascii.Ascii true false false false false true true false)
+                   (String.String (Ascii.Ascii false true false true true true true false) String.EmptyString))),
+           4%N)] /\
+         d_toks
+           (tokenize_runes TokSim.T0 true
+              (runes_of
+                 (String.String (Ascii.Ascii true false false true false true true false)
+                    (String.String (Ascii.Ascii true true false false true true true false)
+                       (String.String (Ascii.Ascii true false true true false true false false)
+                          String.EmptyString))) ++
+               [10%N] ++
+               runes_of
+                 (String.String (Ascii.Ascii true true false false true true true false)
+                    (String.String (Ascii.Ascii true false true false true true true false)
+                       (String.String (Ascii.Ascii true false true false false true true false)
+                          (String.String (Ascii.Ascii false false true false false true true false)
+                             String.EmptyString)))) ++
+               [10%N] ++
+               runes_of
+                 (String.String (Ascii.Ascii false true true false false true true false)
+                    (String.String (Ascii.Ascii true true true true false true true false)
+                       (String.String (Ascii.Ascii true true true true false true true false)
+                          (String.String (Ascii.Ascii false false false false false true false false)
+                             (String.String (Ascii.Ascii false true false false false true true false)
+                                (String.String (Ascii.Ascii true false false false false true true false)
+                                   (String.String (Ascii.Ascii false true false false true true true false)
+                                      String.EmptyString))))))) ++
+               [10%N] ++
+               runes_of
+                 (String.String (Ascii.Ascii false true false false false true true false)
+                    (String.String (Ascii.Ascii true false false false false true true false)
+                       (String.String (Ascii.Ascii false true false true true true true false)
+                          String.EmptyString))))) =
+         [(runes_of
+             (String.String (Ascii.Ascii true false false true false true true false)
+                (String.String (Ascii.Ascii true true false false true true true false)
+                   (String.String (Ascii.Ascii true true false false true true true false)
+                      (String.String (Ascii.Ascii true false true false true true true false)
+                         (String.String (Ascii.Ascii true false true false false true true false)
+                            (String.String (Ascii.Ascii false false true false false true true false)
+                               String.EmptyString)))))), 1%N);
+          (runes_of
+             (String.String (Ascii.Ascii false true true false false true true false)
+                (String.String (Ascii.Ascii true true true true false true true false)
+                   (String.String (Ascii.Ascii true true true true false true true false) String.EmptyString))),
+           2%N);
+          (runes_of
+             (String.String (Ascii.Ascii false true false false false true true false)
+                (String.String (Ascii.Ascii true false false false false true true false)
+                   (String.String (Ascii.Ascii false true false false true true true false) String.EmptyString))),
+           3%N);
+          (runes_of
+             (String.String (Ascii.Ascii false true false false false true true false)
+                (String.String (Ascii.Ascii true false false false false true true false)
+                   (String.String (Ascii.Ascii false true false true true true true false) String.EmptyString))),
+           4%N)].
 Proof. exact (@B2_needs_no_deferred_word). Qed.
-Check C05_crlf_needs_no_pending_join.
 Print Assumptions C05_crlf_needs_no_pending_join.
 
 Example C05_nonvacuous : tables_wf T1 = true.
